@@ -370,7 +370,10 @@ func (x *Exec) unbox(st *State, term string, t types.Type) SVal {
 			key = x.D.fresh("arr@unboxed", "(Array Int "+es+")")
 		}
 		st.Heap[key] = SVal{K: KU, T: arr}
+		st.Named["es:"+key] = es
 		st.assume("(>= " + ln + " 0)")
+		// ground round trip: boxing the unboxed header gives the term back
+		st.assume(eq(x.D.app("boxslice!"+es, []string{arr, "0", ln}, []string{"(Array Int " + es + ")", "Int", "Int"}, "U"), term))
 		return SVal{K: KSlice, Loc: key, Off: "0", Len: ln, Cap: ln, GoT: t}
 	}
 	switch sortOf(t) {
